@@ -3663,6 +3663,19 @@ func (c *Compiler) lowerCallIndirect(typeIndex, tableIndex uint32) {
 }
 
 func (c *Compiler) lowerTailCallReturnCall(fnIndex uint32) {
+	if c.ensureTermination {
+		// A cycle of tail calls never grows the stack nor passes a loop header,
+		// so this is the only place where the exit code can be checked.
+		checkModuleExitCodePtr := c.ssaBuilder.AllocateInstruction().
+			AsLoad(c.execCtxPtrValue,
+				wazevoapi.ExecutionContextOffsetCheckModuleExitCodeTrampolineAddress.U32(),
+				ssa.TypeI64,
+			).Insert(c.ssaBuilder).Return()
+		checkArgs := c.allocateVarLengthValues(1, c.execCtxPtrValue)
+		c.ssaBuilder.AllocateInstruction().
+			AsCallIndirect(checkModuleExitCodePtr, &c.checkModuleExitCodeSig, checkArgs).
+			Insert(c.ssaBuilder)
+	}
 	isIndirect, sig, args, funcRefOrPtrValue := c.prepareCall(fnIndex)
 	builder := c.ssaBuilder
 	state := c.state()
@@ -3693,6 +3706,19 @@ func (c *Compiler) lowerTailCallReturnCall(fnIndex uint32) {
 }
 
 func (c *Compiler) lowerTailCallReturnCallIndirect(typeIndex, tableIndex uint32) {
+	if c.ensureTermination {
+		// A cycle of tail calls never grows the stack nor passes a loop header,
+		// so this is the only place where the exit code can be checked.
+		checkModuleExitCodePtr := c.ssaBuilder.AllocateInstruction().
+			AsLoad(c.execCtxPtrValue,
+				wazevoapi.ExecutionContextOffsetCheckModuleExitCodeTrampolineAddress.U32(),
+				ssa.TypeI64,
+			).Insert(c.ssaBuilder).Return()
+		checkArgs := c.allocateVarLengthValues(1, c.execCtxPtrValue)
+		c.ssaBuilder.AllocateInstruction().
+			AsCallIndirect(checkModuleExitCodePtr, &c.checkModuleExitCodeSig, checkArgs).
+			Insert(c.ssaBuilder)
+	}
 	builder := c.ssaBuilder
 	state := c.state()
 	executablePtr, typ, args := c.prepareCallIndirect(typeIndex, tableIndex)
